@@ -1063,7 +1063,48 @@ def run(ck: core.Check):
     ck.cov["evaluator_cases"] = len(ev_reqs)
     ck.cov["evaluator_mismatches"] = ev_mism
 
-    # ---- model-free oracle
+    # ---- model-free oracle (while it runs, observe the scopes the build hands to _Inline.to_onnx:
+    #      rename_total's hypothesis "nothing visible or counted starts with <node>__")
+    scope_obs = {"to_onnx_calls": 0, "prefix_free": 0}
+    restore_hook = None
+    try:
+        import spox._inline as _I
+
+        _orig_to_onnx = _I._Inline.to_onnx
+
+        def _observed(self, scope, *a, **k):
+            try:
+                pre = scope.node[self] + "__"
+                names: set = set()
+                for sp in (scope.var, scope.node):
+                    q = sp
+                    while q is not None:
+                        names |= {n for n in q.reserved if isinstance(n, str)} | {n for n in q.of_name if isinstance(n, str)}
+                        names |= set(q.base_name_counters)
+                        q = q.parent
+                scope_obs["to_onnx_calls"] += 1
+                scope_obs["prefix_free"] += int(not any(n.startswith(pre) for n in names))
+            except Exception as e:  # noqa: BLE001
+                scope_obs["unobservable"] = f"{type(e).__name__}: {e}"
+            return _orig_to_onnx(self, scope, *a, **k)
+
+        _I._Inline.to_onnx = _observed
+        restore_hook = lambda: setattr(_I._Inline, "to_onnx", _orig_to_onnx)  # noqa: E731
+    except Exception as e:  # noqa: BLE001
+        scope_obs["unobservable"] = f"{type(e).__name__}: {e}"
+    try:
+        _oracle_phase(ck, models, snaps, rng, scope_obs)
+    finally:
+        if restore_hook:
+            restore_hook()
+    if scope_obs.get("to_onnx_calls") and scope_obs["prefix_free"] != scope_obs["to_onnx_calls"]:
+        ck.notes.append(f"{scope_obs['to_onnx_calls'] - scope_obs['prefix_free']} build scopes were not free of the node's prefix family (rename_total does not apply to them)")
+    ck.cov["build_scopes_observed"] = scope_obs
+    ck.cov.update({"models": len(models), "invalid_candidates_dropped": dropped, "feature_histogram": feature_hist})
+    _finish_evidence(ck)
+
+
+def _oracle_phase(ck, models, snaps, rng, scope_obs):
     form_hist: dict[str, int] = {}
     n_oracle = 0
     for mi, (m, meta) in enumerate(models):
@@ -1094,10 +1135,10 @@ def run(ck: core.Check):
                 ck.failure(key, what, {"kind": "compose", "form": form, "model": L.to_b64(m), "seed": seed1,
                                        "summary": L.summary(m), "features": meta["features"]})
         ck.sample({"model": L.summary(m), "features": meta["features"]}, 4)
-    ck.cov.update({
-        "models": len(models), "invalid_candidates_dropped": dropped, "feature_histogram": feature_hist,
-        "oracle_compositions": n_oracle, "oracle_forms": form_hist,
-    })
+    ck.cov.update({"oracle_compositions": n_oracle, "oracle_forms": form_hist})
+
+
+def _finish_evidence(ck):
     ck.exhaustive = False
     ck.rule = (
         "seeded random: hand-built corner-shape models (default-valued / unused inputs, outputs that are inputs or "
